@@ -93,11 +93,18 @@ func (i *Interpreter) Interpret(statements []ast.Stmt, isRepl bool) []interface{
 
 func (i *Interpreter) eval(expr ast.Expr, env *environment.Environment, isRepl bool) (interface{}, *ControlFlowSignal) {
 	// fmt.Printf("%T\n", expr)
+	if utils.HadRuntimeError {
+		// A runtime error has been reported: nothing further is evaluated.
+		return nil, &ControlFlowSignal{Type: ControlFlowNone, LineNumber: 0}
+	}
 	switch e := expr.(type) {
 	case *ast.PropertyAssignment:
 		objectValue, signal := i.eval(e.Object, env, isRepl)
 		if signal.Type != ControlFlowNone {
 			return nil, signal
+		}
+		if utils.HadRuntimeError {
+			return nil, &ControlFlowSignal{Type: ControlFlowNone, LineNumber: 0}
 		}
 
 		// Ensure the object is a map
@@ -111,6 +118,9 @@ func (i *Interpreter) eval(expr ast.Expr, env *environment.Environment, isRepl b
 		newValue, signal := i.eval(e.Value, env, isRepl)
 		if signal.Type != ControlFlowNone {
 			return nil, signal
+		}
+		if utils.HadRuntimeError {
+			return nil, &ControlFlowSignal{Type: ControlFlowNone, LineNumber: 0}
 		}
 
 		// Assign the new value to the property
@@ -144,6 +154,9 @@ func (i *Interpreter) eval(expr ast.Expr, env *environment.Environment, isRepl b
 			return nil, signal
 		}
 
+		if utils.HadRuntimeError {
+			return nil, &ControlFlowSignal{Type: ControlFlowNone, LineNumber: 0}
+		}
 		object, ok := objectValue.(map[string]interface{})
 		if !ok {
 			utils.RuntimeError(token.Token{Line: e.Line}, "Invalid property access. Not an object.")
@@ -181,6 +194,10 @@ func (i *Interpreter) eval(expr ast.Expr, env *environment.Environment, isRepl b
 			return nil, signal
 		}
 
+		if utils.HadRuntimeError {
+			return nil, &ControlFlowSignal{Type: ControlFlowNone, LineNumber: 0}
+		}
+
 		// Ensure the array is a slice and the index is a number
 		array, ok := arrayValue.([]interface{})
 
@@ -216,6 +233,10 @@ func (i *Interpreter) eval(expr ast.Expr, env *environment.Environment, isRepl b
 		newValue, signal := i.eval(e.Value, env, isRepl)
 		if signal.Type != ControlFlowNone {
 			return nil, signal
+		}
+
+		if utils.HadRuntimeError {
+			return nil, &ControlFlowSignal{Type: ControlFlowNone, LineNumber: 0}
 		}
 
 		// Ensure the array is a slice and the index is a number
@@ -266,6 +287,10 @@ func (i *Interpreter) eval(expr ast.Expr, env *environment.Environment, isRepl b
 			return nil, signal
 		}
 
+		if utils.HadRuntimeError {
+			return nil, &ControlFlowSignal{Type: ControlFlowNone, LineNumber: 0}
+		}
+
 		// Ensure the callee is a callable function
 		function, ok := callee.(Callable)
 		if !ok {
@@ -286,6 +311,11 @@ func (i *Interpreter) eval(expr ast.Expr, env *environment.Environment, isRepl b
 				return nil, signal
 			}
 			arguments = append(arguments, argValue)
+		}
+
+		if utils.HadRuntimeError {
+			// An argument failed: the function must not run.
+			return nil, &ControlFlowSignal{Type: ControlFlowNone, LineNumber: 0}
 		}
 
 		// Step 3: Call the function and return its result
